@@ -290,6 +290,7 @@ def run(P, R, tier):
                     "exchange and surface activity conventions (gflag 4, 6)", "Pitzer and SIT excess-energy sums, Gibbs-Duhem consistency, water activity / osmotic coefficient"]
     water_rule(P, R)
     present_rule(P, R)
+    llnlbracket_rule(P, R)
     # ------------------------------------------------------------------ writers of gflag
     R.rule("C16.cases", "every activity-model number assigned to species::gflag has a case in every switch over gflag", minimum=40)
     written = {}
@@ -608,3 +609,46 @@ def enclosing_list(body, node):
             rec(c)
     rec(body)
     return found[0]
+
+
+def llnlbracket_rule(P, R):
+    """"B-dot for LLNL evaluated at the reported I and DH constants": gammas() interpolates A, B and B-dot linearly between the two
+    tabulated temperatures that bracket the solution temperature.  The search for the bracket (the loop over llnl_temp that sets
+    ifirst / ilast) is run concretely on a four-column table for temperatures on, between and at the ends of the grid; the bracket
+    must be tight (ilast - ifirst <= 1) and contain the temperature.  The loop is taken from the code; only the table is assumed."""
+    from .. import minieval as ME
+    RULE = "C16.llnlbracket"
+    R.rule(RULE, "gammas: the LLNL temperature bracket is tight and contains the temperature (bracket search evaluated on a 4-column table)", minimum=9)
+    f = P.one("Phreeqc::gammas")
+    loops = [x for x in T.walk(f["body"]) if x[0] == "For" and any(y[0] == "Member" and y[2] == "Phreeqc::llnl_temp" for y in T.walk(x))
+             and any(how == "=" and T.is_node(T.strip_casts(t)) and T.strip_casts(t)[0] == "Ref" and T.strip_casts(t)[3] == "ilast" for t, how, line, n in T.writes(x))]
+    if len(loops) != 1:
+        R.anchor_missing(RULE, "gammas: %d loops over llnl_temp that assign ilast" % len(loops))
+        return
+    loop = loops[0]
+    # the initialisation that precedes the loop in the same block (ifirst = 0; ilast = size)
+    blocks = [c for c in T.walk(f["body"]) if c[0] == "Compound" and any(st is loop for st in c[2])]
+    pre = []
+    for st in blocks[0][2]:
+        if st is loop:
+            break
+        if T.is_node(st) and st[0] == "Bin" and st[2] == "=":
+            pre.append(st)
+    table = [0.0, 25.0, 60.0, 100.0]
+    for tc in (0.0, 10.0, 25.0, 40.0, 60.0, 75.0, 99.0, 100.0, 24.999):
+        env = ME.Env(vectors={"llnl_temp": table}, scalars={"tc_x": tc})
+        try:
+            for st in pre:
+                ME.run(st, env)
+            ME.run(loop, env)
+        except (ME.Unsupported, IndexError) as e:
+            R.anchor_missing(RULE, "bracket search not evaluable: %s" % e)
+            return
+        lo, hi = env.var.get("ifirst"), env.var.get("ilast")
+        inst = "tc=%g" % tc
+        ok = isinstance(lo, int) and isinstance(hi, int) and 0 <= lo <= hi < len(table) and hi - lo <= 1 and table[lo] <= tc <= table[hi]
+        if ok:
+            R.ok(RULE, inst, "bracket [%g, %g]" % (table[lo], table[hi]))
+        else:
+            R.violation(RULE, inst, "for %g C on the grid %s the search ends with ifirst = %s, ilast = %s: A, B and B-dot are interpolated between columns that are not the "
+                        "neighbours of the temperature" % (tc, table, lo, hi), file=f["file"], line=loop[1], function=f["q"])
